@@ -25,6 +25,8 @@ inductive Err where
   | attrError    -- a child without stored sets (cannot happen in a post-order pass; kept total)
   | indexError   -- `weights[n]` with `n >= len(weights)`, evaluated only when character `n` changes at this pair
   | assertError  -- `assert(len(c) == 2)` of `fitch_up_pass` on an internal non-root node that is not binary
+  | typeError    -- `taxon_state_sets_map[n.taxon]` with `taxon_state_sets_map=None` on a leaf that carries no state sets
+  | nsError      -- `TaxonNamespaceIdentityError`: `parsimony_score(tree, chars)` with `tree.taxon_namespace is not chars.taxon_namespace`
 deriving DecidableEq, Repr
 
 def Err.name : Err → String
@@ -33,6 +35,8 @@ def Err.name : Err → String
   | .attrError => "AttributeError"
   | .indexError => "IndexError"
   | .assertError => "AssertionError"
+  | .typeError => "TypeError"
+  | .nsError => "TaxonNamespaceIdentityError"
 
 /-- one character at one (left, right) pair: the intersection if non-empty (no change), else the union (one change) -/
 def comb (a b : SS) : SS × Nat := if a &&& b != 0 then (a &&& b, 0) else (a ||| b, 1)
